@@ -52,7 +52,18 @@ pub fn exp_accept() -> Vec<TimeVal> {
     vec![rel("now+300", 300), rel("now+3600", 3600), rel("now+1d", 86400), rel("now+10y", 10 * Y), fix("2100", json!(4102444800u64)), TimeVal { label: "now+1d_float", offset: Some(86400), fixed: None, float: true }]
 }
 pub fn nbf_accept() -> Vec<TimeVal> {
-    vec![fix("absent", Value::Null), fix("0", json!(0)), rel("now-10y", -10 * Y), rel("now-300", -300)]
+    vec![
+        fix("absent", Value::Null),
+        fix("0", json!(0)),
+        rel("now-10y", -10 * Y),
+        rel("now-300", -300),
+        // a past instant is a past instant however the number is written
+        TimeVal { label: "now-1d_float", offset: Some(-86400), fixed: None, float: true },
+        fix("1683000000.0_float", json!(1683000000.0)),
+        fix("0.5_float", json!(0.5)),
+        fix("-1", json!(-1)),
+        fix("-1.5_float", json!(-1.5)),
+    ]
 }
 pub fn nbf_reject() -> Vec<TimeVal> {
     vec![rel("now+300", 300), rel("now+3600", 3600), rel("now+1y", Y), rel("now+10y", 10 * Y), TimeVal { label: "now+1y_float", offset: Some(Y), fixed: None, float: true }]
@@ -238,7 +249,7 @@ pub fn run(rep: &Report) {
         let (e, n, acc) = &g[*gi];
         one(*ci, cfg, e, n, *acc, *direct, l);
     });
-    rep.scope_done(json!({"scope": "2 credentials x 2 formats x kb off/on x algs x 22 exp values x 9 nbf values x {through issuer+holder, harness-signed}", "grid_points": g.len(), "evaluations": rep.evals()}));
+    rep.scope_done(json!({"scope": "2 credentials x 2 formats x kb off/on x algs x 26 exp values x 14 nbf values x {through issuer+holder, harness-signed}", "grid_points": g.len(), "evaluations": rep.evals()}));
     // resolution sweep
     let quick = rep.quick();
     let sg = sweep_grid(quick);
